@@ -83,39 +83,36 @@ Qed.
 
 (* ---- totality ------------------------------------------------------------------- *)
 
-(* The model is a total function with exactly three kinds of result: no match
-   (ParseError), the AttributeError of the empty credentials group, or the parts. *)
+(* The model is a total function and never leaves through a foreign exception: the result is
+   the parts or ParseError. *)
 Theorem url_split_total : forall s,
-  url_parse s = Err ParseError \/ url_parse s = Crash AttributeError
-  \/ exists p, url_parse s = Ok p.
+  url_parse s = Err ParseError \/ exists p, url_parse s = Ok p.
 Proof.
   intro s. unfold url_parse.
   destruct (url_match s) as [g|]; [|now left].
-  destruct (g_creds g) as [[|x cr]|].
-  - right; now left.
-  - right; right. destruct (partition_c c_colon (x :: cr)); eauto.
-  - right; right; eauto.
+  right. destruct (g_creds g) as [cr|]; [|eauto].
+  destruct (partition_c c_colon cr); eauto.
 Qed.
 
-(* when exactly the code leaves through AttributeError *)
-Theorem url_crash_iff : forall s,
-  url_parse s = Crash AttributeError <->
-  exists g, url_match s = Some g /\ g_creds g = Some [].
+Corollary url_never_crashes : forall s k, url_parse s <> Crash k.
 Proof.
-  intro s. unfold url_parse. destruct (url_match s) as [g|].
-  - destruct (g_creds g) as [[|x cr]|] eqn:E.
-    + split; [intros _; exists g; now split|reflexivity].
-    + split.
-      * destruct (partition_c c_colon (x :: cr)); discriminate.
-      * intros [g' [H1 H2]]. inversion H1; subst. congruence.
-    + split; [discriminate|]. intros [g' [H1 H2]]. inversion H1; subst. congruence.
-  - split; [discriminate|]. intros [g [H _]]. discriminate.
+  intros s k. destruct (url_split_total s) as [H|[p H]]; rewrite H; discriminate.
 Qed.
 
-(* "x://@host": the formal counterpart of the known AttributeError *)
-Theorem url_empty_credentials_refuted :
-  exists s, url_parse s = Crash AttributeError.
-Proof. exists (of_string "x://@host"%string). vm_compute. reflexivity. Qed.
+(* ParseError exactly when the regex does not match *)
+Theorem url_parse_error_iff : forall s,
+  url_parse s = Err ParseError <-> url_match s = None.
+Proof.
+  intro s. unfold url_parse. destruct (url_match s) as [g|]; [|now split].
+  split; [|discriminate].
+  destruct (g_creds g) as [cr|]; [destruct (partition_c c_colon cr)|]; discriminate.
+Qed.
+
+(* "x://@host": the empty credentials group gives the empty user name and password *)
+Theorem url_empty_credentials :
+  url_split (of_string "x://@host"%string)
+  = Some (mk_parts (of_string "x"%string) (Some ([], [])) (of_string "host"%string) None None).
+Proof. vm_compute. reflexivity. Qed.
 
 (* every match has a newline-free protocol without "://" and the groups tile the input *)
 Theorem url_match_sound : forall s g,
@@ -203,9 +200,7 @@ Proof.
     unfold build_url. fold U. rewrite (cut_sep_build _ _ Hsep).
     rewrite Hrest, (cut_c_app _ _ _ Hcr), (cut_path_build _ _ _ _ HU).
     cbn [g_creds].
-    destruct (u ++ c_colon :: p) as [|x cr] eqn:E.
-    { destruct u; discriminate. }
-    rewrite <- E. unfold partition_c. rewrite (cut_c_app _ _ _ Huc).
+    unfold partition_c. rewrite (cut_c_app _ _ _ Huc).
     unfold U. now rewrite finish_build.
   - (* without credentials *)
     destruct Hc as [[Hra Hqa] Hxa].
@@ -228,7 +223,6 @@ Qed.
 
 (* "user@" without a password: the parser reports the empty password *)
 Theorem url_split_build_user : forall proto user resource params path,
-  user <> [] ->
   negb (contains_sep proto) && negb (has_char newline proto)
   && negb (has_char c_at user) && negb (has_char c_colon user) && negb (has_char newline user)
   && negb (has_char c_bang resource) && negb (has_char c_qm resource)
@@ -238,7 +232,7 @@ Theorem url_split_build_user : forall proto user resource params path,
   url_split (build_url_user proto user resource params path)
   = Some (mk_parts proto (Some (user, [])) resource params path).
 Proof.
-  intros proto user resource params path Hne H.
+  intros proto user resource params path H.
   rewrite !andb_true_iff, !negb_true_iff in H.
   destruct H as [[[[[[[[[[Hsep Hpn] Hua] Huc] Hun] Hrb] Hrq] Hrn] Hqb] Hqn] Hxn].
   set (U := resource ++ q_part params).
@@ -260,7 +254,6 @@ Proof.
   unfold build_url_user. fold U. rewrite (cut_sep_build _ _ Hsep).
   rewrite Hrest, (cut_c_app _ _ _ Hua), (cut_path_build _ _ _ _ HU).
   cbn [g_creds].
-  destruct user as [|x cr]; [congruence|].
   unfold partition_c. rewrite (cut_c_none _ _ Huc).
   unfold U. now rewrite finish_build.
 Qed.
@@ -319,23 +312,32 @@ Proof.
   unfold timegm_ok. now rewrite E1, E2, E3.
 Qed.
 
-(* when exactly the code as written raises ValueError out of the MLSD parser *)
-Theorem ftp_time_crash_iff : forall s,
-  ftp_time_impl s = Crash ValueError <->
-  exists f, ftp_time_fields s = Some f /\ timegm_ok f = false.
+(* the code as written never raises; it returns a value only when date(year, month, 1)
+   exists (year >= 1, month in 1..12) and then the timegm value *)
+Theorem ftp_time_total : forall s,
+  ftp_time_impl s = Ok None
+  \/ exists f, ftp_time_fields s = Some f
+              /\ (1 <= f_year f /\ 1 <= f_month f <= 12)
+              /\ ftp_time_impl s = Ok (Some (timegm f)).
 Proof.
   intro s. unfold ftp_time_impl.
-  destruct (ftp_time_fields s) as [f|].
-  - destruct (timegm_ok f) eqn:E.
-    + split; [discriminate|]. intros [g [H1 H2]]. inversion H1; subst. congruence.
-    + split; [intros _; now exists f|reflexivity].
-  - split; [discriminate|]. intros [g [H _]]. discriminate.
+  destruct (ftp_time_fields s) as [f|]; [|now left].
+  destruct (timegm_ok f) eqn:E; [|now left].
+  right. exists f. unfold timegm_ok in E. rewrite !andb_true_iff in E.
+  destruct E as [[E1 E2] E3]. apply N.leb_le in E1, E2, E3. repeat split; auto.
 Qed.
 
-(* month 13: the formal counterpart of the known ValueError *)
-Theorem ftp_time_month13_refuted :
-  exists s, ftp_time_impl s = Crash ValueError /\ ftp_time_decode s = None.
-Proof. exists (of_string "20201301000000"%string). split; vm_compute; reflexivity. Qed.
+Corollary ftp_time_never_crashes : forall s k, ftp_time_impl s <> Crash k.
+Proof.
+  intros s k. destruct (ftp_time_total s) as [H|[f [_ [_ H]]]]; rewrite H; discriminate.
+Qed.
+
+(* month 13 (the former ValueError) is skipped by the code and by the checked decoder *)
+Theorem ftp_time_month13 :
+  ftp_time_impl (of_string "20201301000000"%string) = Ok None
+  /\ ftp_time_decode (of_string "20201301000000"%string) = None
+  /\ ftp_time_impl (of_string "00000101000000"%string) = Ok None.
+Proof. repeat split; vm_compute; reflexivity. Qed.
 
 (* a few fixed points of the calendar arithmetic *)
 Theorem ftp_time_examples :
